@@ -1275,7 +1275,8 @@ func checkExecuteFromSlave(reqCtx *util.RequestContext, c *SessionExecutor, sql 
 // 如果是只读用户, 且SQL是INSERT, REPLACE, UPDATE, DELETE, DDL, LOAD DATA, 则拒绝执行, 返回true
 // CALL is refused as well: the proxy cannot tell what the stored procedure does;
 // so are PREPARE and EXECUTE sent as queries: what EXECUTE runs is whatever the
-// pooled backend connection has under that name
+// pooled backend connection has under that name; and a WITH statement whose
+// main statement PreviewMainStatement could not tell
 func isSQLNotAllowedByUser(c *SessionExecutor, stmtType int) bool {
 	if c.GetNamespace().IsAllowWrite(c.user) {
 		return false
@@ -1283,7 +1284,8 @@ func isSQLNotAllowedByUser(c *SessionExecutor, stmtType int) bool {
 
 	return stmtType == parser.StmtDelete || stmtType == parser.StmtInsert || stmtType == parser.StmtUpdate ||
 		stmtType == parser.StmtReplace || stmtType == parser.StmtDDL || stmtType == parser.StmtLoad ||
-		stmtType == parser.StmtCallProc || stmtType == parser.StmtPrepare || stmtType == parser.StmtExecute
+		stmtType == parser.StmtCallProc || stmtType == parser.StmtPrepare || stmtType == parser.StmtExecute ||
+		stmtType == parser.StmtWith
 }
 
 // 旧版本，这边有个版本对比的函数性能比较差，qps 大时损耗比较严重遂去掉，Contains 比 HasSuffix 性能差，去掉
